@@ -41,7 +41,7 @@ const char *SYN[] = {
     "pu:1", "pu:2", "core:2 pu:2", "pack:2 numa:2 core:2 pu:2", "numa:3 core:2 pu:2", "pack:4 numa:2 l3:2 core:4 pu:2",
     "pack:2 core:2 pu:2(indexes=0,4,2,6,1,5,3,7)", "pack:2(indexes=3,5) numa:2(memory=256GiB indexes=pack) l2:2 core:1 pu:2(indexes=l2)",
     "numa:2(indexes=5,2) core:3 pu:1", "pack:3 core:11 pu:2", "numa:5 core:13 pu:1", "numa:2 pu:64", "pu:130",
-    "pack:2 [numa(memory=1GB)] core:2 [numa(memory=512MB)] pu:2", "numa:8 pu:1", "numa:70 pu:1", "pack:2 numa:1 core:4 pu:1(indexes=1,3,5,7,9,11,13,15)",
+    "pack:2 [numa(memory=1GB)] core:2 [numa(memory=512MB)] pu:2", "numa:8 pu:1", "numa:70 pu:1", "numa:64 pu:1", "numa:2 core:16 pu:2", "pack:2 numa:1 core:4 pu:1(indexes=1,3,5,7,9,11,13,15)",
 };
 const int NSYN = sizeof SYN / sizeof *SYN;
 const char *XMLS[] = {
@@ -162,10 +162,12 @@ struct BindMachine : Machine {
     Rng root(seed); Rng cfg = root.sub(1), ops = root.sub(2);
     // source and environment
     int sk = (int)cfg.below(100); std::string src, env;
-    if (sk < 50) src = "kind=syn name=" + enc(SYN[cfg.below(NSYN)]);
-    else if (sk < 88) src = std::string("kind=xml name=") + enc(XMLS[cfg.below(NXML)]);
-    else src = "kind=x86 ncpu=" + std::to_string(1 + cfg.below(cfg.chance(1, 4) ? 70 : 12));
-    if (sk >= 88) env = "mode=native";
+    // x86-only discovery needs distinct APIC ids; the model kernel cannot move the thread to another real CPU, so such a load
+    // succeeds on a 1-CPU model only (on larger ones it binds to every PU, restores, and then fails: judged by clause (6), no ops follow)
+    if (sk < 54) src = "kind=syn name=" + enc(SYN[cfg.below(NSYN)]);
+    else if (sk < 95) src = std::string("kind=xml name=") + enc(XMLS[cfg.below(NXML)]);
+    else src = "kind=x86 ncpu=" + std::to_string(cfg.chance(3, 5) ? 1 : 1 + cfg.below(cfg.chance(1, 4) ? 70 : 12));
+    if (sk >= 95) env = "mode=native";
     else { int e = (int)cfg.below(100); env = e < 22 ? "mode=foreign" : e < 65 ? "mode=flag" : "mode=envvar"; }
     p.seth("src", src); p.seth("env", env);
     char b[160]; snprintf(b, sizeof b, "seed=%llu noff=%d ndis=%d nodeoff=%d init=%d", (unsigned long long)(cfg.next() >> 1), cfg.chance(2, 5) ? (int)cfg.range(1, 2) : 0,
@@ -312,7 +314,7 @@ struct BindMachine : Machine {
     const Set &U = node ? R.ncomplete : R.complete; const Set &T = node ? R.ntopo : R.topo;
     Rng g(seed); GenSet o;
     unsigned den = 2 + (unsigned)g.below(3), num = 1 + (unsigned)g.below(den - 1);
-    auto subset = [&](const Set &from, bool nonempty) { Set s; for (unsigned x : from) if (g.chance(num, den)) s.insert(x); if (nonempty && s.empty() && !from.empty()) s.insert(nth(from, g.next())); return s; };
+    auto subset = [&](const Set &from, bool nonempty) { Set s; for (unsigned x : from) if (g.chance(num, den)) s.insert(x); if (!from.empty() && g.chance(1, 3)) s.insert(*from.rbegin());   /* word boundaries: the highest index is the interesting one */ if (nonempty && s.empty() && !from.empty()) s.insert(nth(from, g.next())); return s; };
     unsigned last = U.empty() ? 0 : *U.rbegin();
     switch (cls % NSETCLS) {
       case 0: o.s = subset(T, true); if (o.s == T && T.size() > 1) o.s.erase(nth(o.s, g.next())); break;
